@@ -171,8 +171,11 @@ def check(an: Analysis) -> None:
             continue
         sc = next(i.context_expr for i in scope_with.items if isinstance(i.context_expr, ast.Call) and an.callee(f, i.context_expr) == SCOPE)
         ob.inst(f, sc)
-        if not (len(sc.args) == 1 and d.origins(sc.args[0]) == {"param:label"}):
-            ob.fail(f, sc, "the scope is not named by the label")
+        named = unwrap(d.inline(sc.args[0])) if len(sc.args) == 1 else None
+        by_label = named is not None and d.origins(sc.args[0]) == {"param:label"}
+        by_name = isinstance(named, ast.Attribute) and named.attr == "__name__" and d.origins(named.value) == {"param:function"}
+        if not (by_label or by_name):
+            ob.fail(f, sc, "the scope is not named by the label (the wrapped function's __name__)")
         calls = [n for n in g.nodes if n.kind == "call" and isinstance(n.ast.func, ast.Name) and d.origins(n.ast.func) == {"param:function"}]  # type: ignore[union-attr]
         argrec = [n for n in g.nodes if n.kind == "call" and an.callee(f, n.ast) == REC and n.ast.args and isinstance(n.ast.args[0], ast.Call) and (an.callee(f, n.ast.args[0]) or "").split("#")[0] == f"{AT}.of"]  # type: ignore[union-attr]
         resrec = [n for n in g.nodes if n.kind == "call" and an.callee(f, n.ast) == REC and n.ast.args and isinstance(n.ast.args[0], ast.Call) and (an.callee(f, n.ast.args[0]) or "").split("#")[0] == f"{RT}.of" and n.meta.get("handler") is None]  # type: ignore[union-attr]
@@ -211,6 +214,9 @@ def check(an: Analysis) -> None:
         if lab is None and len(c.args) > 1:
             lab = c.args[1]
         lab = Deps(prog, tr).inline(lab) if lab is not None else None
+        callee_fn = prog.functions.get(an.callee(tr, c) or "")
+        if lab is None and callee_fn is not None and "label" not in callee_fn.param_names() and c.args and is_name(c.args[0], "function"):
+            continue  # the wrapper factory derives the name from the function itself (checked at its ctx.scope call)
         if not (c.args and is_name(c.args[0], "function") and isinstance(lab, ast.Attribute) and lab.attr == "__name__" and is_name(lab.value, "function")):
             ob.fail(tr, c, "traced does not name the scope after the function")
 
